@@ -75,7 +75,7 @@ class Provenance:
         self_tags: "Tags | None" = None,
     ) -> None:
         """source(call, tags of the positional arguments) -> tags of the call's result (None: not a source);
-        attr_tags(attribute expression) -> additional tags of an attribute read;
+        attr_tags(attribute expression[, tags of the object it is read from]) -> additional tags of an attribute read;
         assume(if statement, state on its entry) -> True / False if the test is known to have that value (only that branch is
         followed), None otherwise."""
         self.fn = fn
@@ -224,6 +224,8 @@ class Provenance:
             for i, el in enumerate(t.elts):
                 if isinstance(value, (ast.Tuple, ast.List)) and len(value.elts) == len(t.elts):
                     self._bind(el, self.of(value.elts[i]), value.elts[i], st, weak)
+                elif isinstance(el, ast.Name) and self._is_scalar(el):
+                    self._bind(el, EMPTY, None, st, weak)  # `for name, filters in d.items()`: a str / int / bool carries no filters
                 else:
                     self._bind(el, v, None, st, weak)
         elif isinstance(t, ast.Starred):
@@ -237,6 +239,12 @@ class Provenance:
                 r = root_name(t)
                 if r is not None:
                     st[r] = st.get(r, EMPTY) | v
+
+    def _is_scalar(self, e: ast.AST) -> bool:
+        try:
+            return bool(self.scalar(e))
+        except Exception:  # noqa: BLE001
+            return False
 
     def _self_property(self, attr: str, st: dict[str, Tags], depth: int = 0) -> Tags | None:
         """`self.<attr>` where attr is a property of the analysed method's class: the tags of what the property returns, evaluated
@@ -321,16 +329,22 @@ class Provenance:
         if isinstance(e, ast.Name):
             return st.get(e.id, EMPTY)
         if isinstance(e, ast.Attribute):
-            extra = frozenset(self.attr_tags(e) or ()) if self.attr_tags is not None else EMPTY
             fk = field_key(e)
+            base = None
             if fk is not None and fk not in st:
-                got = self._self_property(fk[5:], st)
-                if got is not None:
-                    return got | extra
-            if fk is not None:
+                base = self._self_property(fk[5:], st)
+            if base is None and fk is not None:
                 self._ev(e.value, st) if not isinstance(e.value, ast.Name) else None
-                return self.get(st, fk) | extra
-            return self._ev(e.value, st) | extra
+                base = self.get(st, fk)
+            if base is None:
+                base = self._ev(e.value, st)
+            extra = EMPTY
+            if self.attr_tags is not None:
+                try:
+                    extra = frozenset(self.attr_tags(e, base) or ())  # type: ignore[call-arg]
+                except TypeError:
+                    extra = frozenset(self.attr_tags(e) or ())
+            return base | extra
         if isinstance(e, ast.Call):
             recv = EMPTY
             if isinstance(e.func, ast.Attribute):
@@ -352,7 +366,7 @@ class Provenance:
             out = recv
             for v in args:
                 out |= v
-            if self.passes is not None and out and any(not t.startswith(("pre:", "via:", "acc:")) for t in out):
+            if self.passes is not None and out and any(not t.startswith(("pre:", "via:", "acc:", "raw:")) for t in out):
                 fname = e.func.id if isinstance(e.func, ast.Name) else e.func.attr if isinstance(e.func, ast.Attribute) else "?"
                 if fname == "filter":
                     out |= {"via:filter:filter()"}
@@ -384,7 +398,9 @@ class Provenance:
             out = EMPTY
             for k, v in zip(e.keys, e.values):
                 if k is not None:
-                    out |= self._ev(k, st)
+                    kt = self._ev(k, st)
+                    if not self._is_scalar(k):
+                        out |= kt
                 out |= self._ev(v, st)
             return out
         if isinstance(e, COMPS):
@@ -394,9 +410,10 @@ class Provenance:
                 for c in g.ifs:
                     self._ev(c, inner)
             if isinstance(e, ast.DictComp):
-                return self._ev(e.key, inner) | self._ev(e.value, inner)
+                kt = self._ev(e.key, inner)
+                return (EMPTY if self._is_scalar(e.key) else kt) | self._ev(e.value, inner)
             out = self._ev(e.elt, inner)
-            if self.passes is not None and any(not t.startswith(("pre:", "via:", "acc:")) for t in out):
+            if self.passes is not None and any(not t.startswith(("pre:", "via:", "acc:", "raw:")) for t in out):
                 ifs = [c for g in e.generators for c in g.ifs]
                 if ifs:
                     out |= {"via:filter:" + " ".join(ast.unparse(ifs[0]).split())[:80]}
@@ -413,7 +430,7 @@ class Provenance:
             return out
         if isinstance(e, ast.BinOp):
             out = self._ev(e.left, st) | self._ev(e.right, st)
-            if self.passes is not None and not isinstance(e.op, (ast.Add, ast.BitOr)) and any(not t.startswith(("pre:", "via:", "acc:")) for t in out):
+            if self.passes is not None and not isinstance(e.op, (ast.Add, ast.BitOr)) and any(not t.startswith(("pre:", "via:", "acc:", "raw:")) for t in out):
                 out |= {"via:op"}
             return out
         if isinstance(e, ast.UnaryOp):
@@ -442,6 +459,8 @@ class Provenance:
             v = self._ev(e.value, st)
             self._bind(e.target, v, e.value, st)
             return v
-        if isinstance(e, ast.Await):
+        if isinstance(e, (ast.Await, ast.YieldFrom)):
             return self._ev(e.value, st)
+        if isinstance(e, ast.Yield):
+            return self._ev(e.value, st) if e.value is not None else EMPTY
         return EMPTY
